@@ -1,7 +1,8 @@
 package c17remap
 
-// Concurrent use of the sharded map (cache.WideMap, modulo and xxhash routing)
-// and of the index functions.
+// Concurrent use of the sharded containers (cache.WideMap mostly, the two
+// sharded LRU caches as well; modulo and xxhash routing) and of the index
+// functions. Shared keys are in c17_shared.go.
 //
 // Every goroutine owns a key set that is disjoint from the others', so the
 // answer to each of its calls is fixed by its own earlier calls alone: the
@@ -19,8 +20,6 @@ import (
 	"sync"
 	"sync/atomic"
 
-	"github.com/pinealctx/neptune/cache"
-	"github.com/pinealctx/neptune/remap"
 	"pgregory.net/rapid"
 
 	"verifharness/vkit"
@@ -41,12 +40,18 @@ type ConcG struct {
 }
 
 type CaseConc struct {
+	// Fam: "" cache.WideMap, "lru" cache.WideLRUCache, "tiny" cache/tiny.WideLRUCache
+	Fam    string `json:"fam,omitempty"`
 	Shards uint64 `json:"shards"`
 	XHash  bool   `json:"xhash"`
 	// Rounds: after its operations (and a second barrier) every goroutine routes
 	// all its keys this many times.
 	Rounds int     `json:"rounds"`
 	G      []ConcG `json:"g"`
+	// Rep: every goroutine runs its operation list this many times (0 = once); its
+	// model of its own keys carries over, so the lists stay short as data while a
+	// case makes thousands of calls on one container.
+	Rep int `json:"rep,omitempty"`
 }
 
 // keyID is the identity of a key as a Go map key (dynamic type and value).
@@ -62,7 +67,27 @@ func keyID(k Key) string {
 
 // intThemes: integer types whose ToBytes encodings have the same width (they
 // would share a scratch buffer if the encoding had one).
-var intThemes = [][]string{{"i16", "u16"}, {"int", "i64"}, {"uint", "u64"}, {"u8", "i8"}, {"i32", "u32"}, {"u8", "uint", "u16"}}
+var intThemes = [][]string{{"i16", "u16"}, {"i32", "u32"}, {"int", "i64"}, {"uint", "u64"}, {"u8", "i8"}, {"u32", "i32", "u32"}, {"u8", "uint", "u16"}}
+
+const (
+	FamConcMap  = ""
+	FamConcLRU  = "lru"
+	FamConcTiny = "tiny"
+)
+
+// concFamily returns the container family of a concurrent case and the value
+// that stands for the int x in it (the sized cache stores cache.Value only).
+func concFamily(name string) (f family, mkv func(x int) interface{}, ok bool) {
+	switch name {
+	case FamConcMap:
+		return famMap, func(x int) interface{} { return x }, true
+	case FamConcLRU:
+		return famLRU, func(x int) interface{} { return sized{x, 1} }, true
+	case FamConcTiny:
+		return famTiny, func(x int) interface{} { return x }, true
+	}
+	return family{}, nil, false
+}
 
 func GenConc(t *rapid.T) CaseConc {
 	var n uint64
@@ -75,22 +100,49 @@ func GenConc(t *rapid.T) CaseConc {
 		n = uint64(rapid.IntRange(4, 16).Draw(t, "shardsAny"))
 	}
 	c := CaseConc{Shards: n, XHash: rapid.Bool().Draw(t, "xhash")}
+	// the map first: shrinking moves towards it
+	c.Fam = rapid.SampledFrom([]string{FamConcMap, FamConcMap, FamConcMap, FamConcMap, FamConcLRU, FamConcTiny}).Draw(t, "fam")
 	maxG, maxOps := 4, 30
 	if vkit.Tier() == "thorough" {
 		maxG, maxOps = 6, 60
 	}
 	ng := rapid.IntRange(2, maxG).Draw(t, "goroutines")
 	c.Rounds = rapid.SampledFrom([]int{0, 1, 3, 10, 40}).Draw(t, "rounds")
+	c.Rep = rapid.SampledFrom([]int{1, 1, 1, 1, 4, 16}).Draw(t, "rep")
 	var theme []string
 	if th := rapid.IntRange(0, 2*len(intThemes)-1).Draw(t, "theme"); th < len(intThemes) {
 		theme = intThemes[th]
+	}
+	// []byte keys cannot be stored (not hashable) but they can be routed: every
+	// call on such a key is a routing call. In a fifth of the cases every
+	// goroutine gets a long one, so that several goroutines hash byte slices at
+	// the same time.
+	bytesTheme := rapid.IntRange(0, 9).Draw(t, "bytesTheme") >= 8
+	// churn: one key per goroutine, stored and deleted over and over, so that the
+	// shards (and the whole container) become empty and non-empty again while
+	// other goroutines store into them.
+	churn := !bytesTheme && rapid.IntRange(0, 9).Draw(t, "churn") >= 8
+	if churn {
+		c.Rep = rapid.SampledFrom([]int{64, 128}).Draw(t, "churnRep")
+		maxOps = 12
 	}
 	seen := map[string]bool{}
 	for g := 0; g < ng; g++ {
 		var cg ConcG
 		nk := rapid.IntRange(1, 5).Draw(t, "nkeys")
+		if churn {
+			nk = 1
+		}
+		if bytesTheme {
+			k := Key{T: "bytes", B: rapid.SliceOfN(rapid.Byte(), 40, 300).Draw(t, "routedBytes")}
+			if id := keyID(k); !seen[id] {
+				seen[id] = true
+				cg.Keys = append(cg.Keys, k)
+				nk++
+			}
+		}
 		for tries := 0; len(cg.Keys) < nk && tries < 40; tries++ {
-			k := genKey(t, n, false, !c.XHash)
+			k := genKey(t, n, true, !c.XHash)
 			if theme != nil && isInt(k.T) {
 				k.T = rapid.SampledFrom(theme).Draw(t, "themeType")
 				k.U = normU(k.T, k.U)
@@ -109,6 +161,11 @@ func GenConc(t *rapid.T) CaseConc {
 		for i := 0; i < nops; i++ {
 			op := ConcOp{K: rapid.IntRange(0, len(cg.Keys)-1).Draw(t, "k")}
 			switch w := rapid.IntRange(0, 19).Draw(t, "opkind"); {
+			case !cg.Keys[op.K].hashable():
+				op.Kind = OpRoute
+			case churn && i > 0:
+				op.Kind = []string{OpSet, OpDelete, OpDelete, OpGet, OpExist}[w%5]
+				op.V = w % 10
 			case i == 0 || w < 7: // the first call of every goroutine stores: first touches of shards are writes
 				op.Kind = OpSet
 				op.V = rapid.IntRange(0, 9).Draw(t, "v")
@@ -151,8 +208,9 @@ const (
 
 type concKey struct {
 	v                      interface{}
-	usable                 bool
-	simple, xhash, xhashBg int // sequential answers; xhash = -1: outside the domain of XHashIndex
+	usable                 bool // routable; storable too unless routeOnly
+	routeOnly              bool // []byte: not hashable, cannot be a container key
+	simple, xhash, xhashBg int  // sequential answers; xhash = -1: outside the domain of XHashIndex
 }
 
 func ExecConc(c CaseConc) *vkit.Result {
@@ -170,6 +228,18 @@ func ExecConc(c CaseConc) *vkit.Result {
 	if rounds < 0 || rounds > 1000 {
 		rounds = 0
 	}
+	reps := c.Rep
+	if reps < 1 {
+		reps = 1
+	}
+	if reps > 1024 {
+		reps = 1024
+	}
+	fam, mkv, ok := concFamily(c.Fam)
+	if !ok {
+		res.Skip("unknown-family")
+		return res
+	}
 	rn, _ := instances(n)
 	rBig, _ := instances(concBigShards)
 	// materialise the keys; the first goroutine that lists a key owns it
@@ -185,9 +255,6 @@ func ExecConc(c CaseConc) *vkit.Result {
 			case !ok:
 				res.Skip("unknown-key-type")
 				continue
-			case !k.hashable():
-				res.Skip("unhashable-key")
-				continue
 			case c.XHash && !k.xhashOK():
 				res.Skip("HitGroup-only-key-with-xxhash-routing")
 				continue
@@ -196,7 +263,7 @@ func ExecConc(c CaseConc) *vkit.Result {
 				continue
 			}
 			owner[keyID(k)] = true
-			ck := concKey{v: v, usable: true, simple: rn.SimpleIndex(v), xhash: -1, xhashBg: -1}
+			ck := concKey{v: v, usable: true, routeOnly: !k.hashable(), simple: rn.SimpleIndex(v), xhash: -1, xhashBg: -1}
 			if k.xhashOK() {
 				ck.xhash, ck.xhashBg = rn.XHashIndex(v), rBig.XHashIndex(v)
 			}
@@ -218,12 +285,7 @@ func ExecConc(c CaseConc) *vkit.Result {
 			res.Class("type=" + k.T)
 		}
 	}
-	var wide cache.MapFacade
-	if c.XHash {
-		wide = cache.NewWideXHashMap(remap.WithPrime(n))
-	} else {
-		wide = cache.NewWideMap(remap.WithPrime(n))
-	}
+	wide, _ := fam.mk(n, c.XHash)
 	route := "modulo"
 	if c.XHash {
 		route = "xxhash"
@@ -269,7 +331,8 @@ func ExecConc(c CaseConc) *vkit.Result {
 			}
 			start.wait()
 			guard(func() *vkit.Failure {
-				for i, op := range cg.Ops {
+				for i := 0; i < reps*len(cg.Ops); i++ {
+					op := cg.Ops[i%len(cg.Ops)]
 					if op.K < 0 || op.K >= len(cg.Keys) || !keys[g][op.K].usable {
 						continue
 					}
@@ -278,22 +341,28 @@ func ExecConc(c CaseConc) *vkit.Result {
 						return fmt.Sprintf("%s routing, %d shards, goroutine %d of %d (disjoint key sets), its call %d, key %v", route, n, g, ng, i, cg.Keys[op.K])
 					}
 					want, present := model[op.K]
-					switch op.Kind {
+					kind := op.Kind
+					if keys[g][op.K].routeOnly {
+						kind = OpRoute
+					}
+					switch kind {
 					case OpSet:
 						val := g*1000 + op.V
-						wide.Set(k, val)
+						wide.SetVal(k, mkv(val))
 						model[op.K] = val
 					case OpGet:
 						v, ok := wide.Get(k)
-						if ok != present || (present && v != interface{}(want)) {
-							return &vkit.Failure{Site: "WideMap/conc.Get", Msg: fmt.Sprintf("%s: Get = (%v,%v), the goroutine's own history demands (%v,%v)", ctx(), v, ok, want, present)}
+						if ok != present || (present && v != mkv(want)) {
+							return &vkit.Failure{Site: fam.name + "/conc.Get", Msg: fmt.Sprintf("%s: Get = (%v,%v), the goroutine's own history demands (%v,%v)", ctx(), v, ok, want, present)}
 						}
 					case OpExist:
 						if ok := wide.Exist(k); ok != present {
-							return &vkit.Failure{Site: "WideMap/conc.Exist", Msg: fmt.Sprintf("%s: Exist = %v, the goroutine's own history demands %v", ctx(), ok, present)}
+							return &vkit.Failure{Site: fam.name + "/conc.Exist", Msg: fmt.Sprintf("%s: Exist = %v, the goroutine's own history demands %v", ctx(), ok, present)}
 						}
 					case OpDelete:
-						wide.Delete(k)
+						if existed, has := wide.Delete(k); has && existed != present {
+							return &vkit.Failure{Site: fam.name + "/conc.Delete", Msg: fmt.Sprintf("%s: Delete = %v, the goroutine's own history demands %v", ctx(), existed, present)}
+						}
 						delete(model, op.K)
 					case OpRoute:
 						if f := checkRoute(g, op.K); f != nil {
@@ -328,16 +397,16 @@ func ExecConc(c CaseConc) *vkit.Result {
 	// sequential sweep: the container holds exactly what the goroutines left
 	for g, cg := range c.G {
 		for j := range cg.Keys {
-			if !keys[g][j].usable {
+			if !keys[g][j].usable || keys[g][j].routeOnly {
 				continue
 			}
 			want, present := models[g][j]
 			k := keys[g][j].v
 			if ok := wide.Exist(k); ok != present {
-				return res.Failf("WideMap/conc.final", "%s routing, %d shards, after %d goroutines with disjoint key sets have finished: Exist(%v) = %v, the history of its owner (goroutine %d) demands %v", route, n, ng, cg.Keys[j], ok, g, present)
+				return res.Failf(fam.name+"/conc.final", "%s routing, %d shards, after %d goroutines with disjoint key sets have finished: Exist(%v) = %v, the history of its owner (goroutine %d) demands %v", route, n, ng, cg.Keys[j], ok, g, present)
 			}
-			if v, ok := wide.Get(k); ok != present || (present && v != interface{}(want)) {
-				return res.Failf("WideMap/conc.final", "%s routing, %d shards, after %d goroutines with disjoint key sets have finished: Get(%v) = (%v,%v), the history of its owner (goroutine %d) demands (%v,%v)", route, n, ng, cg.Keys[j], v, ok, g, want, present)
+			if v, ok := wide.Get(k); ok != present || (present && v != mkv(want)) {
+				return res.Failf(fam.name+"/conc.final", "%s routing, %d shards, after %d goroutines with disjoint key sets have finished: Get(%v) = (%v,%v), the history of its owner (goroutine %d) demands (%v,%v)", route, n, ng, cg.Keys[j], v, ok, g, want, present)
 			}
 		}
 	}
@@ -365,6 +434,19 @@ func ExecConc(c CaseConc) *vkit.Result {
 			}
 		}
 	}
+	bytesG := 0
+	for g := range c.G {
+		for j := range c.G[g].Keys {
+			if keys[g][j].usable && keys[g][j].routeOnly {
+				bytesG++
+				break
+			}
+		}
+	}
+	if bytesG >= 2 {
+		res.Class("[]byte-keys-routed-by-two-goroutines")
+	}
+	res.Class("family=" + fam.name)
 	res.Class(fmt.Sprintf("goroutines=%d", ng))
 	res.Class("routing=" + route)
 	if n <= 3 || n == 7 || n == 73 {
@@ -375,11 +457,26 @@ func ExecConc(c CaseConc) *vkit.Result {
 	if rounds > 0 {
 		res.Class("routing-rounds")
 	}
+	oneKeyEach := true
+	for _, cg := range c.G {
+		oneKeyEach = oneKeyEach && len(cg.Keys) == 1
+	}
+	if oneKeyEach && reps >= 64 {
+		res.Class("churn(one-key-per-goroutine,repetitions>=64)")
+	}
+	switch {
+	case reps >= 64:
+		res.Class("repetitions>=64")
+	case reps >= 4:
+		res.Class("repetitions=4..63")
+	default:
+		res.Class("repetitions<4")
+	}
 	res.NonTrivial = active >= 2 && (shared || n == 1)
 	return res
 }
 
-const concRule = "rapid: shard count (1..3 at 75%, 7|73 at 15%, 4..16) x modulo|xxhash routing x 2-4 goroutines (2-6 thorough), each with 1-5 keys of its own (as in part index without []byte; HitGroup-only keys with modulo routing only; no key value occurs twice in a case; in half of the cases all integer keys come from one group of types with equally wide encodings, e.g. int16/uint16) and 4-30 (4-60) calls Set/Get/Exist/Delete on cache.NewWideMap / NewWideXHashMap plus SimpleIndex/XHashIndex calls, the first call a Set; a fresh container per case, the goroutines leave a spin barrier together; after a second barrier 0-40 rounds of routing all own keys. Oracle: every Get/Exist answers what the goroutine's own earlier Sets/Deletes on that key fix (what the unsharded Map would answer under any interleaving, because no other goroutine touches the key), every index equals the one computed before the goroutines started (also on a 65521-shard instance), no panic, and a final sequential Exist+Get sweep over all keys finds exactly what the owners left. Interleavings are whatever the scheduler produces (the -race binary adds the happens-before check). Non-trivial: >= 2 goroutines with calls, keys of two goroutines on one shard; distinct = distinct case JSON"
+const concRule = "rapid: family (cache.WideMap 2/3, cache.WideLRUCache, tiny.WideLRUCache; capacity 2^40) x shard count (1..3 at 75%, 7|73 at 15%, 4..16) x modulo|xxhash routing x 2-4 goroutines (2-6 thorough), each with 1-5 keys of its own (as in part index; []byte keys cannot be stored, every call on them is a routing call, and in a fifth of the cases every goroutine gets a 40-300 byte one; in a further seventh of the cases - churn - every goroutine has one key only, which it stores and deletes over and over in a list of 4-12 calls run 64 or 128 times, so that shards run empty while others store into them; HitGroup-only keys with modulo routing only; no key value occurs twice in a case; in half of the cases all integer keys come from one group of types with equally wide encodings, e.g. int16/uint16) and a list of 4-30 (4-60) calls Set/Get/Exist/Delete on the container plus SimpleIndex/XHashIndex calls, the first call a Set, the list run 1 (most cases), 4 or 16 times; a fresh container per case, the goroutines leave a spin barrier together; after a second barrier 0-40 rounds of routing all own keys. Oracle: every Get/Exist (and the result of Delete on the LRU families) answers what the goroutine's own earlier Sets/Deletes on that key fix (what the unsharded Map would answer under any interleaving, because no other goroutine touches the key), every index equals the one computed before the goroutines started (also on a 65521-shard instance), no panic, and a final sequential Exist+Get sweep over all keys finds exactly what the owners left. Interleavings are whatever the scheduler produces (the -race binary adds the happens-before check). Non-trivial: >= 2 goroutines with calls, keys of two goroutines on one shard; distinct = distinct case JSON"
 
 var PartConc = &vkit.Part[CaseConc]{
 	Property: Property, Name: "widemap-conc",
